@@ -439,7 +439,7 @@ def main():
     if not _DEV:
         c.prove()
         try:
-            build_driver()
+            build_driver(['c11'])
             build_harness(['owrun'])
         except BuildError as e:
             # the extracted model or the harness does not build: nothing can be compared
